@@ -2174,7 +2174,7 @@ func main() {
 	}
 	seed := vh.SeedFromEnv()
 	r := vh.NewRng(seed)
-	sum := vh.NewSummary("enc: random item trees of depth <= 3 (int/uint at 0, +-1, +-2^53, +-(2^53+1), int64/uint64 limits; float32/64 incl. +-0, 1e-7/1e20/1e21 format switches, subnormals, NaN/Inf; strings over ASCII, html and control bytes, multi-byte and invalid UTF-8, number/bool look-alikes; []byte; time; typed slices, real maps and MapBySlice) -> ONE Encode under random Indent x IntegerAsString x HTMLCharsAsIs x TermWhitespace x MapKeyAsString x BytesFormat x StringToRaw -> bytes vs model enc_top (CEnc), plus direct oracles (naked decode reads the value back and stops behind it, Raw captures exactly the value, unknown-field skip is exact, encoding/json.Valid). valid: 1..4 re-spaced encodings (any byte < 33 as whitespace) on ONE Decoder, each call Decode(&interface{}) or nextValueBytes (Decode(&Raw) and the hook alternate), plus one call at the end (CSeq: class, NumBytesRead, tree / bytes per call) and the oracle that a separated stream decodes document by document. hand: documents WRITTEN FROM THE GRAMMAR (runs of the four RFC 8259 white-space bytes around all tokens, members in random order, number literals of every shape incl. -0, e/E, signs, 64-bit boundaries and out-of-range exponents, string literals of raw UTF-8, two-character escapes and \\u escapes incl. surrogate pairs and lone surrogates, F09-2r class excluded), one Decode(&interface{}) (CSeq) plus the direct oracle: nesting below MaxDepth and numbers in range => accepted, strings as denoted, numbers as the Go type of the number-kind rule with exact value / strconv bits, members complete. mut: one or two edits (byte change/remove/insert, bracket unbalance, closer swap, separator drop/double, truncation, backslash before a quote), 2 calls. rand: <= 24 bytes over a json alphabet, <= 3 calls; crafted: fixed malformed / boundary inputs under 4 option sets. first: 256 first bytes x 9 tails, one call. regr: the repaired FWjson-1 inputs. deep: subprocess (SetMaxStack 64MB) nesting cases. non-trivial = input longer than one byte; distinct by (stream, first byte, per-call mode and outcome class, min(length,40)) resp. (Go type, options, length/4, depth) for enc and by name for regr/deep")
+	sum := vh.NewSummary("enc: random item trees of depth <= 3 (int/uint at 0, +-1, +-2^53, +-(2^53+1), int64/uint64 limits; float32/64 incl. +-0, 1e-7/1e20/1e21 format switches, subnormals, NaN/Inf; strings over ASCII, html and control bytes, multi-byte and invalid UTF-8, number/bool look-alikes; []byte; time; typed slices, real maps and MapBySlice) -> ONE Encode under random Indent x IntegerAsString x HTMLCharsAsIs x TermWhitespace x MapKeyAsString x BytesFormat x StringToRaw -> bytes vs model enc_top (CEnc), plus direct oracles (naked decode reads the value back and stops behind it, Raw captures exactly the value, unknown-field skip is exact, encoding/json.Valid). valid: 1..4 re-spaced encodings (any byte < 33 as whitespace) on ONE Decoder, each call Decode(&interface{}) or nextValueBytes (Decode(&Raw) and the hook alternate), plus one call at the end (CSeq: class, NumBytesRead, tree / bytes per call) and the oracle that a separated stream decodes document by document. hand: documents WRITTEN FROM THE GRAMMAR (runs of the four RFC 8259 white-space bytes around all tokens, members in random order, number literals of every shape incl. -0, e/E, signs, 64-bit boundaries and out-of-range exponents, string literals of raw UTF-8, two-character escapes and \\u escapes incl. surrogate pairs and lone surrogates, F09-2r class excluded), one Decode(&interface{}) (CSeq) plus the direct oracle: nesting below MaxDepth and numbers in range => accepted, strings as denoted, numbers as the Go type of the number-kind rule with exact value / strconv bits, members complete. mut: one or two edits (byte change/remove/insert, bracket unbalance, closer swap, separator drop/double, truncation, backslash before a quote), 2 calls. rand: <= 24 bytes over a json alphabet, <= 3 calls; crafted: fixed malformed / boundary inputs under 4 option sets. first: 256 first bytes x 9 tails, one call. regr: the repaired FWjson-1 inputs. fixed: floats the encoder writes as bare integer literals on both sides of 2^63 x every (SignedInteger, PreferFloat) pair, and quoted map keys that are / are not JSON number literals (.5 1. - e5 +5 007 ...) x every decoder MapKeyAsString / MapType / SignedInteger / PreferFloat vector (CSeq). deep: subprocess (SetMaxStack 64MB) nesting cases. non-trivial = input longer than one byte; distinct by (stream, first byte, per-call mode and outcome class, min(length,40)) resp. (Go type, options, length/4, depth) for enc and by name for regr/deep")
 	cv := vh.NewCases(*cases, "From Coq Require Import List NArith ZArith.\nFrom Verif Require Import Wire.Item Wire.Json Wire.JsonCorr.\nImport ListNotations.", "case", "mismatches", 60)
 	c := &ctx{r: r.Fork(), sum: sum, cv: cv}
 	docs := c.encStream(*nEnc)
@@ -2188,6 +2188,7 @@ func main() {
 	c.r = r.Fork()
 	c.randStream(*nRand)
 	c.firstByteStream(*firstFull)
+	c.fixedStream()
 	cv.Close()
 	c.regrStream()
 	if !*noDeep {
